@@ -46,15 +46,92 @@ let run_varr args ops =
          (match out with
           | ONone -> Buffer.add_string b " -"
           | OVal c -> Buffer.add_string b (" v" ^ show_cell c)
-          | ONat n -> Buffer.add_string b (" n" ^ string_of_int (int_of_nat n))
+          | ONat n -> Buffer.add_string b ((if o = VCapacity then " #c" else " n") ^ string_of_int (int_of_nat n))
           | OBool t -> Buffer.add_string b (if t then " b1" else " b0"));
          (match ev with
-          | Some (o, n) -> Buffer.add_string b (Printf.sprintf " r%d,%d" (int_of_nat o) (int_of_nat n))
+          | Some (o, n) -> Buffer.add_string b (Printf.sprintf " #r%d,%d" (int_of_nat o) (int_of_nat n))
           | None -> ())))
     (String.split_on_char ';' ops);
   Buffer.add_string b " |";
   let n = int_of_nat !v.els_num in
   List.iteri (fun i c -> if i < n then Buffer.add_string b (" " ^ show_cell c)) !v.buf;
+  print_endline (Buffer.contents b)
+
+
+(* ---------------------------------------------------------------- bitmaps *)
+let n_of_int i = if i = 0 then N0 else Npos (pos_of_int i)
+let rec bits_of_pos = function XH -> [1] | XO p -> 0 :: bits_of_pos p | XI p -> 1 :: bits_of_pos p
+let hex_of_n = function
+  | N0 -> "0"
+  | Npos p ->
+    let rec nib = function
+      | [] -> []
+      | a :: b :: c :: d :: r -> (a + 2*b + 4*c + 8*d) :: nib r
+      | l -> nib (l @ [0]) in
+    String.concat "" (List.rev_map (fun d -> String.make 1 "0123456789abcdef".[d]) (nib (bits_of_pos p)))
+let rec dec_of_n n = (* decimal string of an N that fits an OCaml int *)
+  match n with N0 -> "0" | Npos p -> string_of_int (int_of_pos p)
+
+let parse_bop s =
+  let i = int_of_string in
+  let nt x = nat_of_int (i x) and nn x = n_of_int (i x) in
+  match words s with
+  | ["bit"; b; n] -> Some (BBit (nt b, nn n))
+  | ["set"; b; n] -> Some (BSet (nt b, nn n))
+  | ["clr"; b; n] -> Some (BClr (nt b, nn n))
+  | ["setr"; b; n; l] -> Some (BSetR (nt b, nn n, nn l))
+  | ["clrr"; b; n; l] -> Some (BClrR (nt b, nn n, nn l))
+  | ["clear"; b] -> Some (BClear (nt b))
+  | ["expand"; b; n] -> Some (BExpand (nt b, nn n))
+  | ["copy"; d; a] -> Some (BCopy (nt d, nt a))
+  | ["eq"; a; b] -> Some (BEq (nt a, nt b))
+  | ["isect"; a; b] -> Some (BIsect (nt a, nt b))
+  | ["empty"; b] -> Some (BEmpty (nt b))
+  | ["count"; b] -> Some (BCount (nt b))
+  | ["min"; b] -> Some (BMin (nt b))
+  | ["max"; b] -> Some (BMax (nt b))
+  | ["and"; d; a; b] -> Some (BAnd (nt d, nt a, nt b))
+  | ["andc"; d; a; b] -> Some (BAndC (nt d, nt a, nt b))
+  | ["ior"; d; a; b] -> Some (BIor (nt d, nt a, nt b))
+  | ["iorand"; d; a; b; c] -> Some (BIorAnd (nt d, nt a, nt b, nt c))
+  | ["iorandc"; d; a; b; c] -> Some (BIorAndC (nt d, nt a, nt b, nt c))
+  | ["iter"; b] -> Some (BIter (nt b))
+  | ["iinit"; b] -> Some (BIterInit (nt b))
+  | ["inext"] -> Some BIterNext
+  | [] -> None
+  | _ -> failwith ("bad bitmap op: " ^ s)
+
+let dump_store b st =
+  let strip ws = (* drop trailing zero words *)
+    let rec go = function [] -> [] | w :: r -> (match go r with [] -> if w = N0 then [] else [w] | r' -> w :: r') in go ws in
+  let one ws = match strip ws with [] -> "-" | l -> String.concat "." (List.map hex_of_n l) in
+  Buffer.add_string b (" " ^ String.concat "/" (List.map one st));
+  Buffer.add_string b (" #" ^ String.concat "/" (List.map (fun ws -> string_of_int (List.length ws)) st))
+
+let run_bitmap args ops =
+  let nb = int_of_string (String.trim args) in
+  let s = ref (binit (nat_of_int nb)) in
+  let b = Buffer.create 256 in
+  let stop = ref false in
+  List.iter (fun o ->
+    if not !stop then
+    match parse_bop o with
+    | None -> ()
+    | Some o ->
+      (match bstep true !s o with
+       | None -> Buffer.add_string b " REJECT"; stop := true
+       | Some (s', out) ->
+         s := s';
+         (match out with
+          | BoNone -> Buffer.add_string b " -"
+          | BoBool t -> Buffer.add_string b (if t then " b1" else " b0")
+          | BoNum n -> Buffer.add_string b (" n" ^ dec_of_n n)
+          | BoList [] -> Buffer.add_string b " i-"
+          | BoList l -> Buffer.add_string b (" i" ^ String.concat "," (List.map dec_of_n l))
+          | BoNext None -> Buffer.add_string b " x-"
+          | BoNext (Some n) -> Buffer.add_string b (" x" ^ dec_of_n n));
+         dump_store b !s.bst))
+    (String.split_on_char ';' ops);
   print_endline (Buffer.contents b)
 
 let () =
@@ -67,6 +144,7 @@ let () =
         let hd = String.sub line 0 i and ops = String.sub line (i + 1) (String.length line - i - 1) in
         (match words hd with
          | "varr" :: rest -> run_varr (String.concat " " rest) ops
+         | "bitmap" :: rest -> run_bitmap (String.concat " " rest) ops
          | k :: _ -> print_endline ("?kind " ^ k)
          | [] -> ())
     done
